@@ -677,37 +677,37 @@ func checkValidatorUniqueness(r *Report, rule string) {
 	val := P.headerValidator()
 	norm := P.labelNormalizer()
 	eps, _ := P.validatorEntryPaths(val)
-		why := ""
-		for _, ep := range eps {
-			if !ep.accepted {
-				continue
+	why := ""
+	for _, ep := range eps {
+		if !ep.accepted {
+			continue
+		}
+		okNorm, okDup := false, false
+		for _, c := range ep.conds {
+			if c.Val && c.Pred.Op == "res" && c.Pred.S == "1" && c.Pred.Args[0].Op == "call" && c.Pred.Args[0].S == shortFn(norm) {
+				okNorm = true
 			}
-			okNorm, okDup := false, false
-			for _, c := range ep.conds {
-				if c.Val && c.Pred.Op == "res" && c.Pred.S == "1" && c.Pred.Args[0].Op == "call" && c.Pred.Args[0].S == shortFn(norm) {
-					okNorm = true
-				}
-				if !c.Val && c.Pred.Op == "res" && c.Pred.S == "1" && c.Pred.Args[0].Op == "lookup" && c.Pred.Args[0].S == "ok" && strings.Contains(c.Pred.Args[0].Args[1].String(), "call<"+shortFn(norm)+">") {
-					okDup = true
-				}
-			}
-			if !okNorm {
-				why = "an entry is accepted without a successful label normalisation"
-			} else if !okDup {
-				why = "an entry is accepted without the duplicate test on its normalised label"
+			if !c.Val && c.Pred.Op == "res" && c.Pred.S == "1" && c.Pred.Args[0].Op == "lookup" && c.Pred.Args[0].S == "ok" && strings.Contains(c.Pred.Args[0].Args[1].String(), "call<"+shortFn(norm)+">") {
+				okDup = true
 			}
 		}
-		r.ob(rule, shortFn(val)+":unique", val, nil, "every accepted entry normalised its label and passed the duplicate test").check(why == "", "normalise ok and !seen(label) on every accepting path", why)
-		// the set is filled with the normalised label
-		filled := false
-		for _, b := range val.Blocks {
-			for _, in := range b.Instrs {
-				if mu, ok := in.(*ssa.MapUpdate); ok && strings.Contains(P.terms.of(mu.Key).String(), "call<"+shortFn(norm)+">") && P.terms.of(mu.Map).Op == "makemap" {
-					filled = true
-				}
+		if !okNorm {
+			why = "an entry is accepted without a successful label normalisation"
+		} else if !okDup {
+			why = "an entry is accepted without the duplicate test on its normalised label"
+		}
+	}
+	r.ob(rule, shortFn(val)+":unique", val, nil, "every accepted entry normalised its label and passed the duplicate test").check(why == "", "normalise ok and !seen(label) on every accepting path", why)
+	// the set is filled with the normalised label
+	filled := false
+	for _, b := range val.Blocks {
+		for _, in := range b.Instrs {
+			if mu, ok := in.(*ssa.MapUpdate); ok && strings.Contains(P.terms.of(mu.Key).String(), "call<"+shortFn(norm)+">") && P.terms.of(mu.Map).Op == "makemap" {
+				filled = true
 			}
 		}
-		r.ob(rule, shortFn(val)+":records", val, nil, "the normalised label is recorded in the seen-set").check(filled, "seen[normalised label] = ...", "no insertion of the normalised label into a local set")
+	}
+	r.ob(rule, shortFn(val)+":records", val, nil, "the normalised label is recorded in the seen-set").check(filled, "seen[normalised label] = ...", "no insertion of the normalised label into a local set")
 }
 
 func mutC13() []mutant {
